@@ -115,7 +115,7 @@ def run(ctx):
                 continue
             if ctx.tier == "quick" and len(wd) == L and rng.random() < 0.5:
                 continue
-            check_membership(ctx, {"word": wd, "query": q})
+            ctx.guard(check_membership, {"word": wd, "query": q})
             cnt += 1
     ctx.extra["cov_membership_exhaustive_up_to"] = L
     for _ in range(ctx.budget(600, 30000)):
@@ -134,22 +134,22 @@ def run(ctx):
         else:
             q = gen.rnd(rng, rng.randint(0, 4))
         rots = sorted({0, n - 1, rng.randrange(n), rng.randrange(n)}) if n > 12 else list(range(n))
-        check_membership(ctx, {"word": wd, "query": q, "rots": rots})
+        ctx.guard(check_membership, {"word": wd, "query": q, "rots": rots})
     for _ in range(ctx.budget(300, 20000)):
         wd = gen.word(rng)
         n = len(wd)
         a = rng.choice([None, rng.randint(-n - 2, n + 2)])
         b = rng.choice([None, rng.randint(-n - 2, n + 2)])
-        check_slice(ctx, {"word": wd, "a": a, "b": b, "feats": feats_to_json(gen.gen_features(rng, n, 3))})
+        ctx.guard(check_slice, {"word": wd, "a": a, "b": b, "feats": feats_to_json(gen.gen_features(rng, n, 3))})
     for _ in range(ctx.budget(40, 2000)):
         wd = gen.word(rng)
-        check_object_behaviour(ctx, {"word": wd, "feats": feats_to_json(gen.gen_features(rng, len(wd), 2))})
+        ctx.guard(check_object_behaviour, {"word": wd, "feats": feats_to_json(gen.gen_features(rng, len(wd), 2))})
 
 
 def check_case(ctx, case):
     if "query" in case:
-        check_membership(ctx, case)
+        ctx.guard(check_membership, case)
     elif "a" in case:
-        check_slice(ctx, case)
+        ctx.guard(check_slice, case)
     else:
-        check_object_behaviour(ctx, case)
+        ctx.guard(check_object_behaviour, case)
